@@ -441,6 +441,10 @@ func TestC10_Grid(t *testing.T) {
 							sp.SLO = ""
 						}
 						li := &h.LogoutIssue{Model: h.PlainLogout(sp, kind), NS: h.NSStyle{P: "samlp", A: "saml"}}
+						// the Issuer's optional Format attribute, in rotation: it never changes what is compared
+						if fm := []string{"-", "urn:oasis:names:tc:SAML:2.0:nameid-format:entity", "-", "urn:oasis:names:tc:SAML:1.1:nameid-format:unspecified", "urn:oasis:names:tc:SAML:2.0:nameid-format:persistent", ""}[i%6]; fm != "-" {
+							li.Model.IssuerFormat = h.S(fm)
+						}
 						c := C10Case{SP: sp, Issue: li, SigState: state}
 						if f.Target != -2 {
 							spec, ok := applyLogoutFault(&li.Model, sp, f)
